@@ -116,6 +116,52 @@ theorem response_result_sound (M : Model) (hM : modelOK M = true) (r : Request) 
     (h : genTy M genFuel [] r.result = some g) : ∀ x ∈ g, ∃ p, x.2 = GV.val p ∧ (x.1 = true → validTy M (genFuel + 1) r.result p = true) :=
   gen_sound M hM genFuel [] r.result g hok h
 
+/-- True-labelled response vectors: the envelope with the `result` member is a valid response message, and the `error` member the
+    generator puts next to it (recorded finding F1: a response carries result *or* error) is a valid ResponseError -/
+theorem response_sound_partial (M : Model) (hM : modelOK M = true) (r : Request) (hok : tyOK r.result = true)
+    (out : List (Bool × Json)) (h : genResponse M r = some out) : ∀ m ∈ out, m.1 = true →
+    ∃ base x e, m.2 = Json.obj (base ++ [(n!"result", x), (n!"error", e)]) ∧ validResponse M r (.obj (base ++ [(n!"result", x)])) = true ∧
+      validTy M 59 (.ref n!"ResponseError") e = true := by
+  unfold genResponse at h
+  obtain ⟨res, hres, h⟩ := Option.bind_eq_some_iff.mp h
+  obtain ⟨err, herr, h⟩ := Option.bind_eq_some_iff.mp h
+  obtain ⟨rs, hrs, h⟩ := Option.bind_eq_some_iff.mp h
+  intro m hm hlabel
+  obtain ⟨row, hrow, hrm⟩ := forall2_mem_right (mapM_spec _ _ out h) m hm
+  have h2 := rows_spec _ rs hrs row hrow
+  cases h2 with
+  | cons ha t =>
+    cases t with
+    | cons hb t2 =>
+      cases t2 with
+      | cons hc t3 =>
+        cases t3
+        obtain ⟨e0, he0, rfl⟩ := List.mem_map.mp ha
+        obtain ⟨x0, hx0, rfl⟩ := List.mem_map.mp hb
+        obtain ⟨y0, hy0, rfl⟩ := List.mem_map.mp hc
+        obtain ⟨x, hxv, hxval⟩ := gen_sound M hM genFuel [] r.result res hok hres x0 hx0
+        obtain ⟨e, hev, heval⟩ := gen_sound M hM genFuel [] (.ref n!"ResponseError") err (by simp [tyOK]) herr y0 hy0
+        simp only [hxv, hev, Option.some.injEq] at hrm
+        subst hrm
+        simp only [Bool.and_eq_true] at hlabel
+        have hid : ∃ idv, e0.2 = [jsonrpc, (n!"id", idv)] ∧ validTy M 59 idTyJ idv = true := by
+          simp only [responseVariants, idVariants, List.map_cons, List.map_nil, List.cons_append, List.nil_append, List.mem_cons, List.not_mem_nil, or_false] at he0
+          rcases he0 with rfl | rfl | rfl | rfl | rfl | rfl | rfl | rfl | rfl | rfl | rfl
+          · exact ⟨_, rfl, id_valid_int M 57 _ (by decide)⟩
+          · exact ⟨_, rfl, id_valid_int M 57 _ (by decide)⟩
+          · exact ⟨_, rfl, id_valid_int M 57 _ (by decide)⟩
+          · exact ⟨_, rfl, id_valid_str M 57 _⟩
+          all_goals (simp at hlabel)
+        obtain ⟨idv, he2, hidv⟩ := hid
+        refine ⟨e0.2, x, e, ?_, ?_, heval hlabel.2⟩
+        · rw [he2]; simp [dictUpdate, dictSet, jsonrpc]
+        · rw [he2]
+          unfold validResponse
+          show validTy M (59 + 1) _ _ = true
+          rw [validTy_lit]
+          have hv : validTy M 59 r.result x = true := hxval hlabel.1.2
+          simp [validProps, Json.lookup, jsonrpc, strLit_valid M 58, hidv, hv]
+
 /-- non-vacuity: a model and a type on which the hypotheses hold and something is generated and labelled True -/
 example : (genTy ⟨"t", [], [], [], [], []⟩ 3 [] (.array (.base .integer))).isSome = true ∧ modelOK ⟨"t", [], [], [], [], []⟩ = true ∧
     tyOK (.array (.base .integer)) = true := by decide +kernel
